@@ -1,7 +1,7 @@
 (* C10 - Every prefix of the output is a consistent truncated minidump.   Property theorems only. *)
 From Coq Require Import List NArith Arith.
 From MDW Require Import Bytes DirSection DirSectionProofs Prefix DirTrace TraceProofs TraceSeqProofs.
-From MDW Require MemWriter Writer Hoare MiniDump RefsInside Image ImageProofs.
+From MDW Require MemWriter Writer Hoare MiniDump RefsInside Image ImageProofs ImagePayload.
 Import ListNotations.
 Local Open Scope nat_scope.
 
@@ -99,3 +99,14 @@ Theorem C10_whole_dump_prefixes : forall c r s', Image.image c MiniDump.empty_ws
                     Forall (ImageProofs.dirent_inside (Hoare.blen (fst sn))) (snd sn)) (snd r).
 Proof. exact ImageProofs.image_prefixes. Qed.
 Print Assumptions C10_whole_dump_prefixes.
+
+(* ... and every byte outside header and directory is FINAL once it is part of the image: at every recorded boundary, whatever
+   lies beyond the directory (byte 248) is already what the finished image has at that place - nothing that has been flushed is
+   ever rewritten, so what reached the destination never has to be sent again (the directory entries are the only bytes written
+   twice, and the directory section writes them to the destination itself). *)
+Theorem C10_flushed_bytes_are_final : forall c dirs lg s',
+  Image.image c MiniDump.empty_wst = MemWriter.Ok ((dirs, lg), s') -> Hoare.small (Hoare.blen s') ->
+  forall sn, In sn lg ->
+    ImagePayload.stable_from (Image.HEADER_SZ + Image.DIRENT_SZ * Image.NUM_DIRS) (fst sn) s' /\ Hoare.blen (fst sn) <= Hoare.blen s'.
+Proof. exact ImagePayload.image_flushed_bytes_final. Qed.
+Print Assumptions C10_flushed_bytes_are_final.
